@@ -62,6 +62,8 @@ def _increment(s):
         v = v.a[2]
     if s.a[2] == '+=' and v.k == 'const':
         return v.a[0]
+    if s.a[2] == '+=':
+        return 'sum'          # x += <something computed>: an addition, its sign is not visible here
     if s.a[2] == '=' and v.k == 'bin' and v.a[0] == '+':
         for x, y in ((v.a[1], v.a[2]), (v.a[2], v.a[1])):
             while x.k == 'cast':
@@ -70,6 +72,8 @@ def _increment(s):
                 y = y.a[2]
             if path_of(x) == path_of(s.a[0]) and y.k == 'const':
                 return y.a[0]
+            if path_of(x) == path_of(s.a[0]):
+                return 'sum'
     return None
 
 
@@ -142,6 +146,10 @@ def run(cfg):
                 if s.k == 'assign' and path_of(s.a[0]) in targets:
                     n += 1
                     inc = _increment(s)
+                    if inc == 'sum':
+                        # the seconds grow by a computed amount (the catch-up counted in a local first): that the amount is never
+                        # negative is decided by R1, where every reading along a schedule must be the expected one and never go back
+                        continue
                     if not (inc is not None and inc > 0):
                         okm, whym = False, '%s writes mEpochSeconds with %s %s at %s' % (f.name, s.a[2], show(s.a[1]), s.loc)
     if 'mEpochSeconds' not in fields and n == 0:
